@@ -400,6 +400,12 @@ def rule_r5(ctx, rep):
     rep.floor("entries into the id register", 1)
 
 
+# R2-R5 read the shape of expand / _register_ids (insertion index, copy provenance, loop shape, guarded register entries); R6 folds expand on
+# documents holding every situation those clauses are about.  R1 (no failure point after a write, for every input) stays on its own.
+FOLDS = {"R6": {"count": "expansion verdicts", "min": 11, "about": ("expand",)}}
+SUBORDINATE = {"R2": "R6", "R3": "R6", "R4": "R6", "R5": "R6"}
+
+
 def run(ctx, rep):
     rep.explanation = (
         "references.expand: no failure point (explicit raise or undischarged partial operation, from the escape analysis) is reachable "
@@ -412,9 +418,9 @@ def run(ctx, rep):
     if only in (None, "R1"):
         rule_r1(ctx, rep)
     if only in (None, "R2", "R3", "R4"):
-        rule_r2_r3_r4(ctx, rep)
+        rep.guarded("R2", rule_r2_r3_r4, ctx, rep)
     if only in (None, "R5"):
-        rule_r5(ctx, rep)
+        rep.guarded("R5", rule_r5, ctx, rep)
     if only in (None, "R6"):
         from .c16_worlds import rule_r6
         rule_r6(ctx, rep)
